@@ -373,7 +373,18 @@ func (c *zzC06Conc) filter(dataDir string, tab []zzC06Entry, order []int) (d *DN
 		conf.Rewrites = append(conf.Rewrites, c.rewrite(&tab[i]))
 	}
 
-	return New(conf, nil)
+	if d, err = New(conf, nil); err != nil {
+		return nil, err
+	}
+
+	if len(order) > 0 && (len(tab)+len(order)+order[0])%2 == 1 {
+		// Half of the filters have their configuration saved before they are
+		// asked, the way package home does it: WriteDiskConfig into the very
+		// *Config the filter was created with.  Saving is not an edit.
+		d.WriteDiskConfig(conf)
+	}
+
+	return d, nil
 }
 
 var zzC06Setts = &Settings{ProtectionEnabled: true, FilteringEnabled: true}
@@ -1047,19 +1058,31 @@ func TestZZVerifC06Probe(t *testing.T) {
 type zzC06Live struct {
 	conc *zzC06Conc
 	d    *DNSFilter
-	h    map[string]http.HandlerFunc
+	// conf is the object the filter was created with; as in package home it is
+	// also what the configuration is written into on every save.
+	conf  *Config
+	h     map[string]http.HandlerFunc
+	saves int
+}
+
+// save writes the configuration the way home.(*configuration).write does.
+func (l *zzC06Live) save() {
+	l.saves++
+	l.d.WriteDiskConfig(l.conf)
 }
 
 func zzC06NewLive(conc *zzC06Conc, dataDir string) (l *zzC06Live, err error) {
 	l = &zzC06Live{conc: conc, h: map[string]http.HandlerFunc{}}
 	conf := &Config{
-		DataDir:        dataDir,
-		ConfigModified: func() {},
+		DataDir: dataDir,
+		// home.onConfigModified -> config.write -> filters.WriteDiskConfig.
+		ConfigModified: func() { l.save() },
 		HTTPRegister: func(method, url string, h http.HandlerFunc) {
 			l.h[method+" "+url] = h
 		},
 	}
 
+	l.conf = conf
 	if l.d, err = New(conf, nil); err != nil {
 		return nil, err
 	}
@@ -1110,6 +1133,10 @@ type zzC06Step struct {
 
 func (st *zzC06Step) text(l *zzC06Live) (s string) {
 	a := l.rw(&st.A)
+	if st.Act == "save" {
+		return "save"
+	}
+
 	s = st.Act + " " + a.Domain + " -> " + a.Answer
 	if st.Act == "upd" {
 		b := l.rw(&st.B)
@@ -1124,6 +1151,10 @@ func (l *zzC06Live) edit(st *zzC06Step) (ok bool, err error) {
 	var code int
 	var body string
 	switch st.Act {
+	case "save":
+		l.save()
+
+		return true, nil
 	case "add":
 		code, body = l.call("POST /control/rewrite/add", l.rw(&st.A))
 	case "del":
@@ -1667,6 +1698,8 @@ func TestZZVerifC06HistTrace(t *testing.T) {
 		for i := 0; i < edits; i++ {
 			st := zzC06Step{A: zzC06BEntry(rng, pool), B: zzC06BEntry(rng, pool)}
 			switch k := rng.Intn(10); {
+			case len(cur) >= 8 && rng.Intn(8) == 0:
+				st.Act = "save"
 			case len(cur) < 8 || k < 3 && len(cur) < 16:
 				st.Act = "add"
 				if len(cur) > 0 && rng.Intn(8) == 0 {
